@@ -79,6 +79,26 @@ def type_shape_programs():
     return out
 
 
+def block_scope_programs():
+    """well-typed, fully annotated programs in which a block of every kind (if / else branch, bare block, match arm, loop
+    body, block as operand) has 1, 2 or 3 statements and binds a name that shadows an outer variable of ANOTHER type
+    (or of another mutability): the binding ends with the block in the compiler, so it must in the checker too. Each must
+    be accepted, have the declared shape and compute the value of the outer variable."""
+    out = []
+    for inner in ["let x: u16 = 300u16;", "let mut x: u16 = 300u16;", "let x: u16 = 300u16; let w: u16 = x;",
+                  "let w: bool = c; let x: u16 = 7u16;", "let w: bool = c; let x: (u16, bool) = (7u16, w); let z: bool = x.1;"]:
+        out.append(f"pub fn main(x: u8, c: bool) -> u8 {{ if c {{ {inner} }} else {{ {inner} }} x + 1u8 }}")
+        out.append(f"pub fn main(x: u8, c: bool) -> u8 {{ if c {{ {inner} }} x + 1u8 }}")
+        out.append(f"pub fn main(x: u8, c: bool) -> u8 {{ {{ {inner} }} x + 1u8 }}")
+        out.append(f"pub fn main(x: u8, c: bool) -> u8 {{ {{ {{ {inner} }} }} x + 1u8 }}")
+        out.append(f"pub fn main(x: u8, c: bool) -> u8 {{ match c {{ true => {{ {inner} }}, false => {{ {inner} }} }} x + 1u8 }}")
+        out.append(f"pub fn main(x: u8, c: bool) -> u8 {{ for i in [1u8, 2u8] {{ {inner} }} x + 1u8 }}")
+        out.append(f"pub fn main(x: u8, c: bool) -> u8 {{ let u: () = {{ {inner} }}; x + 1u8 }}")
+        out.append(f"pub fn main(x: u8, c: bool) -> u8 {{ let mut y: u8 = 0u8; y = {{ {inner} 2u8 }}; x + y }}")
+        out.append(f"fn f(x: u8, c: bool) -> u8 {{ if c {{ {inner} }} x + 1u8 }}\npub fn main(x: u8, c: bool) -> u8 {{ f(x, c) }}")
+    return out
+
+
 def literal_operand_programs():
     """every operator with an unsuffixed literal operand (0, 1, 2, a larger one) on every integer type, in both
     operand positions: the literal's own width (32 bits when unsuffixed) must never leak into the result"""
@@ -113,6 +133,7 @@ def run(ck):
         lits = rng.sample(lits, 220) + [p for p in lits if "* 0" in p or "0 *" in p][:40]
     sources += [("handlit%d" % i, s) for i, s in enumerate(lits)]
     sources += [("shape%d" % i, s) for i, s in enumerate(type_shape_programs())]
+    sources += [("handscope%d-annotated" % i, s) for i, s in enumerate(block_scope_programs())]
     sources += [(nm + "-annotated", s) for nm, s in annotated]
     sources += [(nm + "-inferred", strip_annotations(rng, s)) for nm, s in annotated]
     sources += [(nm, s) for nm, s in PC.corpus_sources()[:60]]
